@@ -317,7 +317,8 @@ PROPS = {
         "module": "Resolvo.Props.C15",
         "imports": ["Resolvo.Props.C15Model"],
         "theorems": ["Resolvo.C15.amo_sound", "Resolvo.C15.amo_complete_one", "Resolvo.C15.amo_complete_none",
-                     "Resolvo.C15.amo_stable", "Resolvo.C15.threshold", "Resolvo.C15.pair_not_valid", "Resolvo.C15.pair_never_ok", "Resolvo.C15.single_never_unsat"],
+                     "Resolvo.C15.amo_stable", "Resolvo.C15.threshold", "Resolvo.C15.pair_not_valid", "Resolvo.C15.pair_never_ok", "Resolvo.C15.single_never_unsat",
+                     "Resolvo.C15.solvable_variable_unique", "Resolvo.C15.tracker_vars_of_package", "Resolvo.C15.forbid_clause_of_package"],
         "families": [("amo", {"quick": 400, "thorough": 6000}), ("amo-solve", {"quick": 1400, "thorough": 28000}), ("solve", SOLVE_Q), ("hints", HINTS_Q), ("reuse", {"quick": 8000, "thorough": 100000})],
         "assumptions": ["helper variables come from a counter distinct from candidate variables (VariableMap::next_id)"],
         "trusted_base": [],
